@@ -117,6 +117,7 @@ pub fn run(args: &Args, rep: &mut Report, which: Which) {
             }
         }
         let (p, set, mut rng) = case_inputs(args.seed, i, thorough);
+        mon::set_case(i, jobj(&[("case", i.to_string()), ("params", p.json()), ("input", set.brief())]));
         rep.evaluations += 1;
         let via_cli = ragc.is_some() && i % 8 == 3;
         let path = format!("{}/a{}.agc", dir, i);
